@@ -17,6 +17,7 @@
 #include <hgraph/types/graph_wiring.h>
 #include <hgraph/types/metadata/type_registry.h>
 #include <hgraph/types/value/value.h>
+#include <hgraph/types/value/value_builder.h>
 #include <hgraph/util/verif_hook.h>
 
 #include <algorithm>
@@ -408,6 +409,76 @@ namespace
         static Port<TS<Int>> compose(Wiring &w, Port<TS<Int>> ts) { return nested_<C>(w, ts); }
     };
 
+    // ---- kind 6: feedback of TSB shape with partial-field writes.  Script "8 t 1 field value" (field 0/1/2 = a/b/c).
+    // Two feedbacks on the same producer: without and with a declared initial value {a:0,b:0,c:0}.
+    // Probe lines 35 id t (modified valid value) x3; id 1 written side, 2 feedback, 3 feedback with initial value.
+    using WABC = TSB<"HgvABC", Field<"a", TS<Int>>, Field<"b", TS<Int>>, Field<"c", TS<Int>>>;
+
+    struct WBundleSource
+    {
+        static constexpr auto name              = "hgv_bundle_source";
+        static constexpr bool schedule_on_start = true;
+        static void start(State<Int> index) { index.set(Int{0}); }
+        static void eval(NodeScheduler sched, State<Int> index, DateTime now, Out<WABC> out)
+        {
+            apply_steps(sched, index, now, [&](const WStep &st) {
+                if (st.op != 1) { return; }
+                if (st.key == 0) { out.template field<"a">().set(Int{st.value}); }
+                else if (st.key == 1) { out.template field<"b">().set(Int{st.value}); }
+                else { out.template field<"c">().set(Int{st.value}); }
+            });
+        }
+    };
+
+    struct WBundleProbe
+    {
+        static constexpr auto name = "hgv_bundle_probe";
+        static void eval(In<"s", WABC> s, Scalar<"id", Int> id, DateTime now)
+        {
+            auto a = s.template field<"a">();
+            auto b = s.template field<"b">();
+            auto c = s.template field<"c">();
+            g_wout->line({35, static_cast<std::int64_t>(id.value()), us(now),
+                          a.modified(), a.valid(), a.valid() ? static_cast<std::int64_t>(a.value()) : 0,
+                          b.modified(), b.valid(), b.valid() ? static_cast<std::int64_t>(b.value()) : 0,
+                          c.modified(), c.valid(), c.valid() ? static_cast<std::int64_t>(c.value()) : 0});
+        }
+    };
+
+    // ---- kind 7: a feedback loop inside a try_except_ child; a validating node ranked AFTER the sink throws on
+    // negative values (captured by try_except_), so the write and the failure happen in the same child cycle.
+    struct WIdent
+    {
+        static constexpr auto name = "hgv_ident";
+        static void eval(In<"x", TS<Int>> x, Out<TS<Int>> out) { out.set(x.value()); }
+    };
+    struct WRejectNegative
+    {
+        static constexpr auto name = "hgv_reject_negative";
+        static void eval(In<"x", TS<Int>> x)
+        {
+            if (x.value() < 0) { throw std::runtime_error("negative value rejected"); }
+        }
+    };
+    struct WRecError
+    {
+        static constexpr auto name = "hgv_rec_error";
+        static void eval(In<"e", TS<NodeError>> e, DateTime now) { g_wout->line({36, us(now)}); }
+    };
+    struct WTryLoop
+    {
+        static constexpr auto name = "hgv_try_loop";
+        static void compose(Wiring &w, Port<TS<Int>> x)
+        {
+            auto fb = stdlib::feedback<TS<Int>>(w);
+            fb(x);
+            wire<WRecWritten>(w, x);
+            wire<WRecDelivered>(w, fb());
+            auto y = wire<WIdent>(w, x);
+            wire<WRejectNegative>(w, y);
+        }
+    };
+
     struct CycleObs : LifecycleObserver
     {
         hgv::Out *out;
@@ -458,6 +529,27 @@ namespace
                 {
                     if (structural >= 2) { (void)nested_<WNest1<WChildAcc>>(w, x); } else { (void)nested_<WChildAcc>(w, x); }
                 }
+            }
+            else if (kind == 6)
+            {
+                auto pr = wire<WBundleSource>(w);
+                auto fb = stdlib::feedback<WABC>(w);
+                fb(pr);
+                BundleBuilder init{ValuePlanFactory::instance().type_for(schema_descriptor<WABC>::ts_meta()->delta_value_schema)};
+                init.set("a", Value{Int{0}});
+                init.set("b", Value{Int{0}});
+                init.set("c", Value{Int{0}});
+                auto fbi = stdlib::feedback<WABC>(w, init.build());
+                fbi(pr);
+                wire<WBundleProbe>(w, pr, Int{1});
+                wire<WBundleProbe>(w, fb(), Int{2});
+                wire<WBundleProbe>(w, fbi(), Int{3});
+            }
+            else if (kind == 7)
+            {
+                auto x   = wire<WIntSource>(w);
+                auto err = try_except_<WTryLoop>(w, x).template as<TS<NodeError>>();
+                wire<WRecError>(w, err);
             }
             else if (kind == 5)
             {
